@@ -87,6 +87,83 @@ func (fo FlowOpts) Run(seeds []ssa.Value) map[ssa.Value]bool {
 	for _, s := range seeds {
 		add(s)
 	}
+	// struct values (or pointers to them) one of whose fields holds a tracked value: field-sensitive, so that a
+	// value put into an options struct is found again where that field -- and only that field -- is read
+	P := map[ssa.Value]map[int]bool{}
+	type pItem struct {
+		v ssa.Value
+		k int
+	}
+	var pwork []pItem
+	addP := func(v ssa.Value, k int) {
+		if v == nil {
+			return
+		}
+		if P[v] == nil {
+			P[v] = map[int]bool{}
+		}
+		if !P[v][k] {
+			P[v][k] = true
+			pwork = append(pwork, pItem{v, k})
+		}
+	}
+	drainPartial := func() {
+		for len(pwork) > 0 {
+			it := pwork[len(pwork)-1]
+			pwork = pwork[:len(pwork)-1]
+			refs := it.v.Referrers()
+			if refs == nil {
+				continue
+			}
+			for _, in := range *refs {
+				switch r := in.(type) {
+				case *ssa.UnOp:
+					if r.Op == token.MUL && r.X == it.v {
+						addP(r, it.k)
+					}
+				case *ssa.Store:
+					if r.Val == it.v {
+						addP(r.Addr, it.k)
+					}
+				case *ssa.Phi:
+					addP(r, it.k)
+				case *ssa.ChangeType:
+					addP(r, it.k)
+				case *ssa.Field:
+					if r.X == it.v && r.Field == it.k {
+						add(r)
+					}
+				case *ssa.FieldAddr:
+					if r.X == it.v && r.Field == it.k {
+						add(r)
+					}
+				case *ssa.MakeClosure:
+					fn, _ := r.Fn.(*ssa.Function)
+					for j, b := range r.Bindings {
+						if b == it.v && fn != nil && j < len(fn.FreeVars) {
+							addP(fn.FreeVars[j], it.k)
+						}
+					}
+				case ssa.CallInstruction:
+					com := r.Common()
+					for _, callee := range idx.CalleesAt(r) {
+						if callee == nil || len(callee.Blocks) == 0 || (follow != nil && !follow(callee)) {
+							continue
+						}
+						off := 0
+						if com.IsInvoke() {
+							off = 1
+						}
+						for i, a := range com.Args {
+							if a == it.v && i+off < len(callee.Params) {
+								addP(callee.Params[i+off], it.k)
+							}
+						}
+					}
+				}
+			}
+		}
+	}
 	pendingReturns := map[*ssa.Return]bool{}
 	for {
 		before := len(T)
@@ -102,6 +179,9 @@ func (fo FlowOpts) Run(seeds []ssa.Value) map[ssa.Value]bool {
 				case *ssa.Store:
 					if r.Val == x {
 						add(r.Addr)
+						if fa, ok := r.Addr.(*ssa.FieldAddr); ok {
+							addP(fa.X, fa.Field)
+						}
 						if fo.Containers {
 							base := r.Addr
 							for {
@@ -226,6 +306,7 @@ func (fo FlowOpts) Run(seeds []ssa.Value) map[ssa.Value]bool {
 				}
 			}
 		}
+		drainPartial()
 		// returns: context-sensitive in a cheap way — a tracked return value flows to a call site only
 		// if that site passes a tracked argument (or the callee has no parameters)
 		for ret := range pendingReturns {
@@ -260,7 +341,7 @@ func (fo FlowOpts) Run(seeds []ssa.Value) map[ssa.Value]bool {
 				}
 			}
 		}
-		if len(T) == before && len(work) == 0 {
+		if len(T) == before && len(work) == 0 && len(pwork) == 0 {
 			break
 		}
 	}
